@@ -7,6 +7,7 @@ RUN = "monitor"
 SHARD = 6
 # 99 = separator between run A and run B
 TAGS = {1, 2, 3, 4, 5, 6, 7, 9, 10, 11, 12, 13, 14, 15, 99}
+MAX_RECORDS = 600_000   # per projected twin trace (unchanged tree: < 150_000)
 PROBE_SAMPLE = 37   # every 37th state probe (tag 8) is kept, plus the first probe of each run with the Pacing timer armed
 RULE = ("every scenario is run twice on the real endpoints (key 901): 1 identical replay, 2 every supplied instant shifted by "
         "977_777_777 us, 3 spurious handle_timeout / poll calls (300 permille) and early wake-ups (300 permille) added, "
@@ -63,6 +64,7 @@ def gen(rng, n):
         elif m == 7:      # bulk with a real controller + pacing
             d["STREAM_BYTES"] = rng.choice([100000, 300000])
             d["WRITE_CHUNK"] = 100000
+            d["READ_MAX"] = 100000
             d["CONTROLLER"] = rng.choice([0, 1, 2])
             d.pop("FIXED_WINDOW", None)
         if rng.chance(1, 5):
@@ -74,7 +76,18 @@ def gen(rng, n):
             d.setdefault("MAX_TIME", 8_000_000)
         if d.get("PACING_BPS") and d["STREAM_BYTES"] > d["PACING_BPS"] // 2:
             d["STREAM_BYTES"] = d["PACING_BPS"] // 2
+        if min(d["WRITE_CHUNK"], d["READ_MAX"]) < 100 and d["STREAM_BYTES"] > 3000:
+            d["STREAM_BYTES"] = 3000    # byte-sized reads / writes: keep the APP record volume down
         d["TWIN"] = 1 + (i % 4) if not rng.chance(1, 6) else rng.range(1, 4)
+        # bound every run in virtual time: a connection that never goes quiet (a mutant answering every poll) must
+        # not produce an unbounded trace (the simulator's own bound is 200_000 steps per run, i.e. millions of
+        # records); variant 3 multiplies the steps, so it gets the tightest bound
+        cap = 4_000_000
+        if d["TWIN"] == 3:
+            cap = 2_200_000 if d.get("ZERO_RTT") else 1_200_000
+        d["MAX_TIME"] = min(d.get("MAX_TIME", cap), cap)
+        if d.get("IDLE_MS", 0) == 0 or d["IDLE_MS"] > 3000:
+            d["IDLE_MS"] = rng.choice([1500, 3000])
         # the base run sometimes has a driver that is itself late (variants 1/2 must still agree)
         if d["TWIN"] in (1, 2) and rng.chance(1, 4):
             S.driver(rng, d)
@@ -95,6 +108,12 @@ def project(case, outs):
     for r in outs:
         if not r:
             continue
+        if r[0] < 0:                        # -997 the simulator process died on this case, -998 it timed out
+            res.append(r)
+            continue
+        if len(res) >= MAX_RECORDS:
+            res.append([98, len(outs)])     # trace budget exceeded: rejected by the monitor
+            break
         if r[0] == 99:
             k = 0
             paced_seen = False
